@@ -1,6 +1,6 @@
 (* C12 — memory-limited decoding has an exact threshold U, the tracked usage. *)
 Require Import Scale.Bytes Scale.Eres Scale.Prog Scale.ProgFacts Scale.ProgMore Scale.Chunks Scale.Monitors Scale.CompactImpl
-  Scale.CompactSpec Scale.CompactProofs Scale.CompactTheorems Scale.Utf8 Scale.Codec Scale.CodecEnc Scale.CodecDec Scale.CodecRt Scale.CodecMore Scale.TraceEq Scale.Mem.
+  Scale.CompactSpec Scale.CompactProofs Scale.CompactTheorems Scale.Utf8 Scale.Codec Scale.CodecEnc Scale.CodecDec Scale.CodecRt Scale.CodecMore Scale.TraceEq Scale.Depth Scale.Mem Scale.Rec Scale.RecRt.
 
 (* for EVERY decoder program, input and limit L, with U the saturating sum of the sizes the
    decode announces: L > U is transparent; if anything was announced (in particular if
@@ -85,6 +85,15 @@ Example C12_value_nonvacuous :
   (exists bs, enc_spec t v = EOk bs) /\ ann t v = 2 * 16 + 2 * 8 + 192 + 2 /\ payload t v = 2 * 16 + 2 * 8 + 17 + 2.
 Proof. repeat split; try (vm_compute; reflexivity). eexists. vm_compute. reflexivity. Qed.
 
+(* recursive derived types: the same closed form (boxed size per Box<Self> / Option<Box<Self>>,
+   count x element size per Vec<Self>, plus the universe-typed fields, summed over the recursion)
+   is the threshold of memory-limited decoding of the encoding of a recursive value *)
+Theorem C12_recursive_limit_on_encodings : forall d F v bs known rest L,
+  wf_rdef d = true -> ridx_ok d = true -> renc F d v = EOk bs -> rann F d v <= usize_max ->
+  (rann F d v < L -> exists u, run (memmon L) (rdec F d) known (bs ++ rest) 0 = ROk (rcanon F d v) rest u) /\
+  (0 < rann F d v -> L <= rann F d v -> exists u, run (memmon L) (rdec F d) known (bs ++ rest) 0 = RErr u).
+Proof. exact rec_mem_limit_on_encodings. Qed.
+
 Print Assumptions C12_threshold.
 Print Assumptions C12_used_mem_is_U.
 Print Assumptions C12_transparent.
@@ -92,3 +101,4 @@ Print Assumptions C12_btree_estimate_half.
 Print Assumptions C12_tracked_usage_closed_form.
 Print Assumptions C12_limit_on_encodings.
 Print Assumptions C12_payload_covered.
+Print Assumptions C12_recursive_limit_on_encodings.
